@@ -48,6 +48,13 @@ impl Layout {
     }
 
     pub fn try_into(self) -> Result<LayoutMetadata> {
+        if self.typ != "layout" {
+            return Err(Error::Encoding(format!(
+                "Unexpected _type {:?} for a layout",
+                self.typ
+            )));
+        }
+
         // Ignore all keys with incorrect key IDs.
         // If a malformed key is used, there will be a warning
         let keys_with_correct_key_id = self
